@@ -308,6 +308,14 @@ func EncodedLength(n datamodel.Node) (int64, error) {
 	case datamodel.Kind_Bool:
 		return 1, nil // 0xf4 or 0xf5
 	case datamodel.Kind_Int:
+		if uin, ok := n.(datamodel.UintNode); ok {
+			// same probe as marshal(): values above MaxInt64 are only available as uint
+			uv, err := uin.AsUint()
+			if err != nil {
+				return 0, err
+			}
+			return uintLength(uv), nil
+		}
 		v, err := n.AsInt()
 		if err != nil {
 			return 0, err
